@@ -3,6 +3,7 @@ import copy
 import json
 import random
 
+from harness import ref_text as RT
 from harness import core, expressible as EX, gen_db as GD, gen_text as GT, impl_text as IT, observe as O, speller as SP
 from harness import parse_common as PC
 from harness.driver import Driver, DriverError
@@ -29,7 +30,7 @@ def canonical_ref_order(spec):
 
 def make_expressible(spec):
     """push a generated hygienic spec into the Expressible domain (what the generator claims)"""
-    s = SP.normalise_for_spelling(spec, IT.norm_impl)
+    s = SP.normalise_for_spelling(spec, RT.ref_norm)
     for t in s['tables']:
         for c in t['columns']:
             d = c['default']
@@ -130,7 +131,7 @@ def job(j):
     try:
         if kind == 'parsed':
             spec = GD.gen_spec(rng, wild=False, max_tables=4)
-            spec = make_expressible(spec) if rng.random() < 0.75 else SP.normalise_for_spelling(spec, IT.norm_impl)
+            spec = make_expressible(spec) if rng.random() < 0.75 else SP.normalise_for_spelling(spec, RT.ref_norm)
             if not SP.spellable(spec):
                 return {'skip': 'unspellable'}
             text, _, _ = SP.spell(spec, rng, {'varied': True})
